@@ -429,8 +429,17 @@ class UnionV(_Val):
             self.exit_k = k
         return dict(name="alternatives-loop", inv=inv, exit=on_exit, havoc_containers=True)
 
+    def alternatives_untouched(self, it):
+        st = it.st
+        cur = (st.get(self.vs, "$arr"), st.get(self.vs, "$lo"), st.get(self.vs, "$hi"))
+        j = z3.Int("j!un")
+        return z3.And(cur[1] == self.vlo, cur[2] == self.vhi,
+                      z3.ForAll([j], z3.Implies(z3.And(self.vlo <= j, j < self.vhi), z3.Select(cur[0], j) == z3.Select(self.varr, j))))
+
     def on_return(self, it, ret):
         st = it.st
+        st.check("C04-P7:validating-a-value-never-changes-the-alternatives(the-outcome-depends-on-the-value-alone,-not-on-earlier-values)",
+                 self.alternatives_untouched(it))
         k = st.fresh("k", I)
         # the loop body returned at some alternative k (the havocked loop index of the arbitrary iteration)
         j = z3.Int("j!ur")
@@ -443,6 +452,8 @@ class UnionV(_Val):
     def on_raise(self, it, exc):
         st = it.st
         self.exception_ok(it, exc)
+        st.check("C04-P7:validating-a-value-never-changes-the-alternatives(the-outcome-depends-on-the-value-alone,-not-on-earlier-values)",
+                 self.alternatives_untouched(it))
         j = z3.Int("j!ux")
         st.check("P2:a-union-rejects-only-when-every-alternative-does",
                  z3.ForAll([j], z3.Implies(z3.And(self.vlo <= j, j < self.vhi), z3.Not(v_ok(z3.Select(self.varr, j), self.value)))))
